@@ -14,7 +14,7 @@ RULE = ('a universe of ~110 hand-enumerated values (None, bools, ints, floats, n
         'evaluating eq(x,y) and eq(y,x) (the diagonal twice: same object, and an independently built copy holding fresh NaN objects); '
         'random nestings to depth 3 plus representation-changing variants (1 / 1.0 / np.int64(1), dict insertion order, dtype, NaN object) '
         'and single-point mutants (one cell, container kind at depth, shape, index label, dict class), plus same-size dicts with different key sets whose non-shared keys map to None (also nested / subclassed / with shared keys), give further pairs, triples '
-        '(x,y,z: eq(x,y), eq(y,z), eq(x,z)), in_(x, seq) cases (seq a list / tuple / object array) and veq(x, y) on same-shape arrays; 7 values of size 120..300; np.int32 / np.float32 scalars, sub-second, pre-1970 and year-2200 timestamps; positional and keyword spelling. edit cases: eq on two live objects (Series / DataFrame / ndarray, top level or inside list / tuple / dict), an in-place edit of one (cell, index label, column label), eq again, an edit of the other, eq again - every verdict compared on the current values, both argument orders; datetime64[ns] / timedelta64[ns] Series and frames (with NaT) against int / object / float columns. Compared inside Coq with M_eq.eq_model / in_model (outcome Raised is a value). '
+        '(x,y,z: eq(x,y), eq(y,z), eq(x,z)), in_(x, seq) cases (seq a list / tuple / object array; half of them with ALL members hashable - NaN objects of different identity alone and inside tuples, 1 / 1.0 / True, datetime / Timestamp / datetime64 - against the model exists y in seq, eq(x, y)) and veq(x, y) on same-shape arrays; 7 values of size 120..300; np.int32 / np.float32 scalars, sub-second, pre-1970 and year-2200 timestamps; positional and keyword spelling. edit cases: eq on two live objects (Series / DataFrame / ndarray, top level or inside list / tuple / dict), an in-place edit of one (cell, index label, column label), eq again, an edit of the other, eq again - every verdict compared on the current values, both argument orders; datetime64[ns] / timedelta64[ns] Series and frames (with NaT) against int / object / float columns. Compared inside Coq with M_eq.eq_model / in_model (outcome Raised is a value). '
         'Oracle on the real outputs: never raises, returns bool, symmetric, transitive on the triple, in_ = any(eq), and equal to the '
         'structural rule read off the property text wherever that rule is determined (undetermined only for dtype-only differences). '
         'non-trivial = at least one operand is a container, or a triple / in_ case; distinct by the JSON of the operands')
@@ -862,6 +862,17 @@ def gen_cases(rng, tier):
         if r < 0.4: seq.insert(rng.randrange(len(seq) + 1), variant(rng, x))
         elif r < 0.7: seq.insert(rng.randrange(len(seq) + 1), mutant(rng, x))
         cases.append({'kind': 'in', 'x': x, 'seq': seq, 'seq_as': rng.choice(['list', 'list', 'tuple', 'array'])})
+    # in_ over sequences whose members are ALL hashable (scalars, tuples of scalars): a set / dict lookup shortcut would answer these, and it is
+    # wrong whenever eq is not identity-or-== with equal hashes: NaN objects of different identity (alone or inside a tuple), np.datetime64 vs datetime
+    HASHABLE = [NAN, ['npnan'], ['npf32nan'], ['none'], I(0), I(1), F(2), F(3), ['npint', 1], ['bool', True], S('a'), S('1'), ['npstr', 'a'], ['inf', False], ['dt', D1], ['ts', D1], ['dt64', D1], ['nat'],
+                ['td', 1000000], ['pytd', 1000000], ['nptd', 's', 1], X(0.3), T(NAN), T(I(1), NAN), T(I(1), I(2)), T(), T(S('a'), ['none']), T(T(NAN)), Q('Point', I(1), NAN)]
+    for _ in range(n // 2):
+        seq = [copy.deepcopy(rng.choice(HASHABLE)) for _ in range(rng.randrange(1, 6))]
+        r = rng.random()
+        if r < 0.55: x = variant(rng, rng.choice(seq))          # eq to a member, never the same object
+        elif r < 0.8: x = mutant(rng, rng.choice(seq))
+        else: x = copy.deepcopy(rng.choice(HASHABLE))
+        cases.append({'kind': 'in', 'x': x, 'seq': seq, 'seq_as': rng.choice(['list', 'tuple'])})
     import math
     for _ in range(n // 5):      # last-bit neighbours: the same float context holding f, nextafter(f), f*(1+1e-9)
         f = rng.choice([0.3, 0.1 + 0.2, 1.5, 1e-9, 1e10, -2.75, 123456.789])
